@@ -46,6 +46,13 @@ def generate(rng, tier, seed):
                 pool = KEYPOOL.setdefault(ks, [rb(rng, ks) for _ in range(2)])
                 roundtrips(c, rng, digits(rng, plen), digits(rng, 16), digits(rng, pan4len), rng.choice(pool))
                 yield c
+    # very long PANs (formats 0 and 3 document a lower bound only): hundreds of digits, and either side of the interpreter's
+    # limit of 4300 digits for converting text to an integer
+    for panlen in (40, 100, 640, 641, 1000, 4299, 4300, 4301, 4302, 5000, 20000):
+        for plen in (4, 7, 12):
+            c = Case("roundtrip:long-pan", {"pin_len": plen, "pan_len": panlen})
+            roundtrips(c, rng, digits(rng, plen), digits(rng, panlen), digits(rng, 16), rb(rng, 16))
+            yield c
     n = 10000 if tier == "thorough" else 400
     pan, pan4, key = digits(rng, 16), digits(rng, 12), rb(rng, 16)
     for v in (range(10000) if tier == "thorough" else rng.sample(range(10000), n)):
